@@ -516,6 +516,18 @@ fn gen_streams(master: u64, job: u64, tier: Tier) -> Vec<(Vec<u8>, String)> {
         let (c, _p, raw) = workload::gen_reshift_band_stream(&mut rng);
         v.push((raw, format!("reshift-band text, {}", c.describe())));
     }
+    if job % 64 == 23 {
+        let (c, _p, raw) = workload::gen_big_dynamic_block_stream(&mut rng);
+        v.push((raw, format!("one dynamic block of > 65535 literals, {}", c.describe())));
+    }
+    if job % 4 == 2 {
+        let (c, _p, raw) = workload::gen_tail_match_stream(&mut rng);
+        v.push((raw, format!("long match at the end of input, {}", c.describe())));
+    }
+    if job % 8 == 1 {
+        let (c, _p, raw) = workload::gen_empty_plaintext_stream(&mut rng);
+        v.push((raw, format!("empty plaintext, {}", c.describe())));
+    }
     if job % 64 == 5 {
         // a non-final block of 65536 + m tokens (token counts that differ only above bit 16)
         let (c, _p, raw) = workload::gen_wraparound_block_stream(&mut rng);
